@@ -675,43 +675,62 @@ def oracle(case, res):
 
 
 # ====================================================================== shrinking
-def shrink_case(case, fails):
-    """greedy: drop cells / faces / edges, then exclusion ids, keep the failure; fails(case)->bool"""
+def same_class(m0, m1):
+    """two oracle messages describe the same kind of failure"""
+    if m1 is None:
+        return False
+    crash0, crash1 = m0.startswith("implementation crashed"), m1.startswith("implementation crashed")
+    if crash0 or crash1:
+        return crash0 and crash1 and m0.split(":")[1:2] == m1.split(":")[1:2]
+    return True
+
+
+def shrink_case(case, msg, max_rounds=30):
+    """greedy one-element deletions (cells / faces / edges / exclusion ids), one driver batch per round;
+    a candidate is kept only if the oracle still rejects it for the same kind of reason"""
     cur = json.loads(json.dumps(case))
-    changed = True
-    rounds = 0
-    while changed and rounds < 6:
-        changed = False
-        rounds += 1
+    for _ in range(max_rounds):
+        cands = []
         for key in ("C", "F", "E"):
-            i = 0
-            while i < len(cur["mesh"][key]) and len(cur["mesh"][key]) > 1:
-                cand = json.loads(json.dumps(cur))
-                del cand["mesh"][key][i]
-                if cur["kind"] in ("face", "cell") and cur["op"] in ("tree",):
-                    n_el = len(cand["mesh"]["F" if cur["kind"] == "face" else "C"])
-                    if cand.get("root", 0) >= n_el:
-                        i += 1
+            L = cur["mesh"][key]
+            if len(L) <= 1:
+                continue
+            for i in range(len(L)):
+                c = json.loads(json.dumps(cur))
+                del c["mesh"][key][i]
+                if c["op"] == "tree" and c["kind"] in ("face", "cell") and key == ("F" if c["kind"] == "face" else "C"):
+                    if c["root"] == i:
                         continue
-                try:
-                    ok = fails(cand)
-                except Exception:
-                    ok = False
-                if ok:
-                    cur = cand
-                    changed = True
-                else:
-                    i += 1
-        if cur.get("excl"):
-            for x in list(cur["excl"]):
-                cand = json.loads(json.dumps(cur))
-                cand["excl"].remove(x)
-                try:
-                    if fails(cand):
-                        cur = cand
-                        changed = True
-                except Exception:
-                    pass
+                    if c["root"] > i:
+                        c["root"] -= 1
+                cands.append(c)
+        for x in (cur.get("excl") or []):
+            c = json.loads(json.dumps(cur))
+            c["excl"].remove(x)
+            cands.append(c)
+        if cur.get("avoid_boundary"):
+            c = json.loads(json.dumps(cur))
+            c["avoid_boundary"] = False
+            cands.append(c)
+        if not cands:
+            break
+        cands = cands[:80]
+        try:
+            rs = core.run_impl(DRIVER, {"cases": cands, "case_timeout": 20}, timeout=600)["results"]
+        except Exception:
+            break
+        nxt = None
+        for c, r in zip(cands, rs):
+            try:
+                m = oracle(c, r)
+            except Exception:
+                m = None
+            if same_class(msg, m):
+                nxt = c
+                break
+        if nxt is None:
+            break
+        cur = nxt
     return cur
 
 
@@ -831,9 +850,7 @@ def run(ctx):
             continue
         reported.add(key)
 
-        def f(cc):
-            return oracle(cc, run_one(cc)) is not None
-        small = shrink_case(case, f)
+        small = shrink_case(case, msg)
         o2 = run_one(small)
         m2 = oracle(small, o2) or msg
         ctx.violation("%s on %s: %s" % (case["what"], case["mesh"]["shape"], m2),
